@@ -38,12 +38,13 @@ def wrap(v, tc, tw):
 
 
 class Evaluator:
-    def __init__(self, fn, model):
+    def __init__(self, fn, model, depth=0):
         self.fn = fn
         self.R = Renderer(fn)
         self.model = model
         self.used = set()
         self.unknown = {}   # rendering -> type class of leaves that could not be evaluated
+        self.depth = depth
 
     def atom(self, i):
         r = self.R.render(i)
@@ -64,6 +65,8 @@ class Evaluator:
             r3 = re.sub(r'\(unsigned long\)(?=local:)', '', r2)
             r3 = re.sub(r'local:(\w+)', lambda m: str(self.model['local:' + m.group(1)]) if isinstance(self.model.get('local:' + m.group(1)), int) and
                         not isinstance(self.model.get('local:' + m.group(1)), bool) else m.group(0), r3)
+            for _ in range(3):
+                r3 = re.sub(r'\((\d+) ([-+]) (\d+)\)', lambda m: str(int(m.group(1)) + int(m.group(3)) if m.group(2) == '+' else int(m.group(1)) - int(m.group(3))), r3)
             for acc, cont in (self.model.get('#alias') or {}).items():
                 r3 = re.sub(r'\.%s\((\d+)\)' % re.escape(acc), lambda m: '.%s[%s]' % (cont, m.group(1)), r3)
             if r3 != r2:
@@ -180,6 +183,66 @@ class Evaluator:
             return wrap(v, n.get('tc'), n.get('tw'))
         if k == 'StringLiteral':
             return n.get('v')
+        # iterators as (container rendering, position); std range algorithms with a one-parameter lambda
+        if k == 'CXXMemberCallExpr' and n['callee']['name'] in ('begin', 'cbegin', 'end', 'cend') and n['callee'].get('classq', '').startswith('std::') and n.get('obj') is not None:
+            c_ = self.R.render(n['obj'])
+            if n['callee']['name'] in ('begin', 'cbegin'):
+                return ('it', c_, 0)
+            sz = self.model.get(c_ + '.size')
+            if sz is None:
+                self.unknown[c_ + '.size'] = 'u'
+                return None
+            self.used.add(c_ + '.size')
+            return ('it', c_, sz)
+        if k == 'CallExpr' and n.get('callee', {}).get('qname') == 'std::distance' and len(fn.call_args(n)) == 2:
+            a, b = self.ev(fn.strip(fn.call_args(n)[0], 'all')), self.ev(fn.strip(fn.call_args(n)[1], 'all'))
+            if isinstance(a, tuple) and isinstance(b, tuple) and a[1] == b[1]:
+                return b[2] - a[2]
+            return None
+        if k == 'CallExpr' and n.get('callee', {}).get('qname') in ('std::find_if', 'std::find_if_not', 'std::any_of', 'std::all_of', 'std::none_of', 'std::count_if'):
+            from paths import lambda_params
+            lp = [v for v in lambda_params(fn).values() if v[2] == n['id']]
+            args = fn.call_args(n)
+            if len(lp) == 1 and len(args) == 3:
+                b, e = self.ev(fn.strip(args[0], 'all')), self.ev(fn.strip(args[1], 'all'))
+                body = fn.nodes[lp[0][4]]
+                stmts = [fn.nodes[x] for x in body['ch']]
+                if isinstance(b, tuple) and isinstance(e, tuple) and b[1] == e[1] and len(stmts) == 1 and stmts[0]['k'] == 'ReturnStmt' and stmts[0]['ch']:
+                    key = 'local:' + lp[0][1]
+                    saved = self.model.get(key)
+                    vals = []
+                    try:
+                        for kk in range(b[2], e[2]):
+                            self.model[key] = kk
+                            v = self.ev(stmts[0]['ch'][0])
+                            if v is None:
+                                return None
+                            vals.append(bool(v))
+                    finally:
+                        if saved is None:
+                            self.model.pop(key, None)
+                        else:
+                            self.model[key] = saved
+                    q = n['callee']['qname']
+                    if q == 'std::find_if':
+                        return ('it', b[1], b[2] + vals.index(True)) if True in vals else e
+                    if q == 'std::find_if_not':
+                        return ('it', b[1], b[2] + vals.index(False)) if False in vals else e
+                    if q == 'std::any_of':
+                        return any(vals)
+                    if q == 'std::all_of':
+                        return all(vals)
+                    if q == 'std::none_of':
+                        return not any(vals)
+                    if q == 'std::count_if':
+                        return sum(vals)
+            return None
+        if k == 'CXXOperatorCallExpr' and n.get('op') == '-' and len(n.get('args', [])) == 2:
+            a, b = self.ev(n['args'][0]), self.ev(n['args'][1])
+            if isinstance(a, tuple) and isinstance(b, tuple) and a[1] == b[1]:
+                return a[2] - b[2]
+        if k == 'CXXConstructExpr' and len(n.get('args', [])) == 1 and (n['callee'].get('copy') or n['callee'].get('move')):
+            return self.ev(n['args'][0])
         if k == 'CallExpr' and n.get('callee', {}).get('qname') == 'ezc3d::toUpper' and len(n.get('args', [])) == 1:
             v = self.ev(n['args'][0])
             return v.upper() if isinstance(v, str) else None
@@ -218,6 +281,21 @@ class Evaluator:
             if c is None:
                 return None
             return self.ev(n['lhs'] if c else n['rhs'])
+        if k in ('CallExpr', 'CXXMemberCallExpr') and n.get('callee', {}).get('inrepo') and self.depth < 3:
+            # a file-local helper without effects that computes a value: evaluate it on the translated model
+            cf = fn.prog.funcs.get(n['callee']['usr'])
+            if cf is not None and (cf.rec.get('internal') or '(anonymous namespace)' in cf.qname) and cf.body is not None and cf.rec.get('ret') != 'void':
+                try:
+                    import effects as FX
+                    pure = not [e for e in FX.get(fn.prog).events_of(cf) if e[1] != 'local' and e[3] != 'io']
+                except Exception:
+                    pure = False
+                if pure:
+                    st = {}
+                    m2 = translate_model(fn, self, n, cf, self.model)
+                    _, end2, _ = walk(cf, m2, follow_loops=True, max_steps=2000, state=st, _depth=self.depth + 1)
+                    if end2 == 'NEXIT' and st.get('ret') is not None:
+                        return st['ret']
         if k in ('CXXMemberCallExpr', 'MemberExpr', 'CXXOperatorCallExpr', 'CallExpr', 'ArraySubscriptExpr'):
             self.unknown[self.R.render(i)] = n.get('tc')
         return None
@@ -233,6 +311,26 @@ def store_action(fn, ev, n, cont):
         return (n['callee']['name'], '')
     if n['k'] == 'CXXOperatorCallExpr' and n.get('op') == '=' and n.get('args') and R.render(n['args'][0]) == cont:
         return ('assign-all', '')
+    if n['k'] == 'CXXOperatorCallExpr' and n.get('op') == '=' and n.get('args'):
+        l = fn.nodes[fn.strip(n['args'][0], 'all')]
+        if l['k'] == 'CXXOperatorCallExpr' and l.get('op') == '*' and len(l.get('args', [])) == 1:
+            v = ev.ev(l['args'][0])
+            if isinstance(v, tuple) and v[0] == 'it' and v[1] == cont:
+                return ('at', v[2])
+    # written through a local reference bound to an element (tracked at its declaration)
+    tgt = None
+    if n['k'] == 'CXXMemberCallExpr' and not n['callee'].get('const') and n.get('obj') is not None:
+        tgt = n['obj']
+    elif n['k'] == 'CXXOperatorCallExpr' and n.get('op') in ('=', '+=') and n.get('args'):
+        tgt = n['args'][0]
+    if tgt is not None:
+        t_ = fn.nodes[fn.strip(tgt, 'all')]
+        while t_['k'] == 'MemberExpr' and t_['ch']:
+            t_ = fn.nodes[fn.strip(t_['ch'][0], 'all')]
+        if t_['k'] == 'DeclRefExpr' and t_['decl'].get('dk') == 'local' and t_['decl'].get('isref'):
+            rf = ev.model.get('ref:' + t_['decl']['name'])
+            if rf is not None and rf[0] == cont:
+                return ('at', rf[1])
     sub = None
     if n['k'] == 'CXXOperatorCallExpr' and n.get('op') == '[]' and R.render(n['args'][0]) == cont:
         sub = n['args'][1]
@@ -317,7 +415,7 @@ def walk(fn, model, start=None, stop=None, follow_loops=False, max_steps=5000, s
     is the list of node ids met (in order), end in {'NEXIT','XEXIT','throw:<type>@node','stop@node','loop'}"""
     g = fn.events()
     model = dict(model)
-    ev = Evaluator(fn, model)
+    ev = Evaluator(fn, model, depth=_depth)
     if state is not None:
         state['model'] = model
         state['ev'] = ev
@@ -370,6 +468,19 @@ def walk(fn, model, start=None, stop=None, follow_loops=False, max_steps=5000, s
             # scalar locals with several definitions (loop counters): tracked along the walk
             if n['k'] == 'DeclStmt':
                 for d in n['decls']:
+                    if 'init' in d and d.get('isref'):
+                        # a reference bound to an element of a container: remember which element
+                        e_ = fn.nodes[fn.strip(d['init'], 'all')]
+                        cn = ix = None
+                        if e_['k'] == 'CXXOperatorCallExpr' and e_.get('op') == '[]' and len(e_.get('args', [])) == 2:
+                            cn, ix = e_['args'][0], e_['args'][1]
+                        elif e_['k'] == 'CXXMemberCallExpr' and e_['callee']['name'] == 'at' and e_.get('obj') is not None and e_.get('args'):
+                            cn, ix = e_['obj'], e_['args'][0]
+                        if cn is not None:
+                            try:
+                                model['ref:' + d['name']] = (ev.R.render(cn), ev.ev(ix))
+                            except OutOfRange:
+                                raise
                     if 'init' in d and d.get('tc') in ('s', 'u', 'b', 'f') and d['id'] not in ev.R.single_def_locals():
                         val = ev.ev(d['init'])
                         model['local:' + d['name']] = wrap(val, d.get('tc'), d.get('tw')) if val is not None else None
